@@ -227,8 +227,8 @@ func runParallel(e *Env, cs []pcase, G, ops int, label string) (evs [][]pevent, 
 					sendBuf.Reset()
 					continue
 				}
-				// decode private bytes into a private object
-				d := e.C.New[c.t.QName]()
+				// decode private bytes into a private object (every other time one handed out by the generated constructor)
+				d := e.NewVia(c.t.QName, k)
 				in := bytes.NewBuffer(append([]byte(nil), c.bytes...))
 				t0 = int64(time.Since(start))
 				err, p = LibDecode(d, in)
